@@ -344,6 +344,18 @@ def main(argv):
     try:
         mod = importlib.import_module("mc.props." + prop_id.lower())
         mod.run(ctx)
+        if ctx.thorough and os.environ.get("VERIF_WARM", "1") != "0":
+            # second regime: the same exploration on databases that have already served a broad pack
+            # of foreign requests (mc/worlds.py: warm_up); coverage counters are the sum of both passes
+            from . import worlds
+
+            cold = dict(ctx.part.counters)
+            worlds.WARM = True
+            try:
+                mod.run(ctx)
+            finally:
+                worlds.WARM = False
+            ctx.coverage_extra = dict(ctx.coverage_extra, regimes=["cold caches", "warm: after the prelude pack of mc/worlds.py warm_up"], evaluations_cold_pass=int(cold.get("evaluations", 0)))
     except HarnessError as e:
         print("HARNESS-NONDETERMINISM/ERROR: %s" % e)
         return 2
